@@ -314,6 +314,10 @@ pub fn run_scenario(sc: &Value, top: &Path) -> Value {
                 Ok(g) => g,
                 Err(e) => return json!({"error": format!("glob does not build: {}", e)}),
             };
+            // a glob that can be rooted walks the file system from its root: only behind the scratch path
+            if !sc["rooted"].as_bool().unwrap_or(false) && !glob.has_root().is_never() {
+                return json!({"error": "refused: a rooted glob outside the scratch directory"});
+            }
             let given = if sc["rooted"].as_bool().unwrap_or(false) { PathBuf::from("/nonexistent-base") } else { base.clone() };
             let g2 = glob.clone().into_owned();
             let strip2 = strip.clone();
